@@ -9,6 +9,7 @@ def run(tier, seed):
         {"prog": "page", "strategy": "pct", "runs": (150, 2000), "args": ["--snap", "3", "--spurious", "1"]},
         {"prog": "page-collect", "strategy": "random", "runs": (150, 2000), "args": ["--snap", "3", "--spurious", "2", "--rate", "2"]},
         {"prog": "page", "strategy": "random", "runs": (100, 1500), "args": ["--snap", "3", "--size", "60000", "65536", "--spurious", "1"]},
+        {"prog": "page-collect", "strategy": "random", "runs": (60, 800), "args": ["--snap", "3", "--park", "6", "--rate", "3"]},
         {"prog": "pc", "strategy": "random", "runs": (2, 12), "args": ["--rate", "5"]},
         {"prog": "pc", "strategy": "random", "runs": (2, 8), "args": ["--size", "60000", "65536"]},
         {"prog": "pc", "strategy": "random", "runs": (1, 6), "args": ["--size", "900000", "1048576"]},
